@@ -24,7 +24,7 @@ def mc(ctx, inst, mode, avals="{0,3,8,13}", mutant="none", expect=None, workers=
     return r
 
 
-def replay(ctx, inst, tag, be, kind, kinds, seed, tol=256, take=1, before=None):
+def replay(ctx, inst, tag, be, kind, kinds, seed, tol=256, take=1, before=None, threads=1):
     """run h_boot replay on the instance (optionally after another instance `before` = (inst, tag) in the same process),
     keep rows of the given kinds (every take-th), validate with Table_C04"""
     txt = ringdump.dump_instance(ctx, inst, tag)
@@ -34,7 +34,7 @@ def replay(ctx, inst, tag, be, kind, kinds, seed, tol=256, take=1, before=None):
     exe = build.harness("h_boot", be, kind)
     raw = os.path.join(ctx.dir, "replay-%s-%s-%s.raw" % (tag, be, kind))
     with open(raw, "w") as f:
-        rc, _, err = sh([exe, "replay"] + files + ["--seed", str(seed), "--only", ",".join("boot" if k.startswith("boot") else k for k in kinds)], stdout=f, timeout=3000)
+        rc, _, err = sh([exe, "replay"] + files + ["--seed", str(seed), "--threads", str(threads), "--only", ",".join("boot" if k.startswith("boot") else k for k in kinds)], stdout=f, timeout=3000)
     if rc != 0:
         return {"crash": "h_boot replay died rc=%s %s" % (rc, err[-300:])}, None
     rows = os.path.join(ctx.dir, "replay-%s-%s-%s.ndjson" % (tag, be, kind))
